@@ -1,0 +1,11 @@
+//go:build verif
+
+// Contracts for the slipvc verifier (see /verif/DESIGN.md). Comment-only file.
+
+package flavors
+
+// C11: flattening the components of a flavor never adds a second combination
+// that comes from a flavor already present in the method's list.
+//@ func flavors.(*Flavor).inheritFlavor
+//@   property C11
+//@   on-store Combinations one-per-origin: forall j :: (0 <= j && j < len(was) && was[j].From != nil) ==> Name(was[j].From) != Name(ic.From)
